@@ -18,6 +18,7 @@ The region the unchanged tree violates (finding F2) is `httpBindExcluded` (Spec.
 refuted full statement and its witness are in Witness.lean.
 -/
 import CaddyModel.C01.Witness
+import CaddyModel.C03.LemmasP
 
 namespace CaddyModel.C01
 open CaddyModel.Lifecycle
@@ -80,6 +81,42 @@ theorem accepted_is_ok_or_same (s : State) (c : Cfg) (e : Env)
     (h : (changeTo c e s).2.accepted = true) : (changeTo c e s).2 = .ok ∨ (changeTo c e s).2 = .same :=
   changeTo_accepted h
 
+/-- **a rejected attempt leaves no module and no pool reference behind** (full strength; the
+    clause seeded mutant C01-provision-rollback-shadowed-err breaks). In any state satisfying the
+    module-balance and pool invariants of reachable states (`C03.Inv3`, `C03.Inv5`; every
+    `runOps State.init ops` does — `reachable_invariants`), after a rejected attempt: the set of
+    live module instances is the one of the configuration that keeps running, every other
+    instance — in particular every module provisioned for the rejected configuration, wherever the
+    failure occurred — has been cleaned up exactly as often as it was provisioned (once), and the
+    guest / hosts usage pool is unchanged. -/
+theorem rejected_leaves_no_module (s : State) (c : Cfg) (e : Env)
+    (h3 : C03.Inv3 s) (h5 : C03.Inv5 s)
+    (hw : s.raw = s.rawJSON) (hs : ∀ k ∈ s.socks, k.cid < s.next)
+    (hr : (changeTo c e s).2.accepted = false) :
+    C03.curLive (changeTo c e s).1 = C03.curLive s ∧
+    (∀ i, i ∉ C03.curLive s →
+      (changeTo c e s).1.events.count (.clean i) = (changeTo c e s).1.events.count (.prov i) ∧
+      (changeTo c e s).1.events.count (.prov i) ≤ 1) ∧
+    (∀ k, (changeTo c e s).1.mpool k = s.mpool k) := by
+  have hcur := (rejected_changes_nothing s c e hw hs hr).2.2.1
+  have hl : C03.curLive (changeTo c e s).1 = C03.curLive s := by
+    unfold C03.curLive; rw [hcur]
+  have hb := (C03.inv3_changeTo h3 c e).bal
+  refine ⟨hl, fun i hi => ⟨hb.dead i (by rw [hl]; exact hi), hb.prov1 i⟩, fun k => ?_⟩
+  have h5' := (C03.inv5_changeTo h5 c e).pool k
+  have e1 : C03.curKeys (bump (changeTo c e s)).1 = C03.curKeys s := by
+    unfold C03.curKeys
+    show (match (changeTo c e s).1.cur with | none => [] | some ctx => C03.keys ctx.live) = _
+    rw [hcur]
+    rfl
+  rw [e1, ← h5.pool k] at h5'
+  exact h5'
+
+/-- every reachable state satisfies the hypotheses of `rejected_leaves_no_module` -/
+theorem reachable_invariants (ops : List Op) :
+    C03.Inv3 (runOps State.init ops) ∧ C03.Inv5 (runOps State.init ops) :=
+  ⟨C03.inv3_runOps ops State.init C03.inv3_init, C03.inv5_runOps ops State.init C03.inv5_init⟩
+
 /-! ### every history -/
 
 /-- **history_atomic_partial.** For EVERY history of load / partial-change / malformed / validate
@@ -136,6 +173,13 @@ example : (changeTo ⟨0, [], [⟨0, 5, 0, [2], []⟩]⟩ exEnv exState).2 = .ok
 -- the admin routers cannot be provisioned: rejected before anything starts, nothing moves
 example : (changeTo ⟨0, [], [⟨0, 5, 0, [2], []⟩]⟩ ⟨true, false, 2, [], [0], [0]⟩ exState).2 = .errAdmin ∧
     answers (changeTo ⟨0, [], [⟨0, 5, 0, [2], []⟩]⟩ ⟨true, false, 2, [], [0], [0]⟩ exState).1 = [(0, 1), (1, 2)] := by decide
+-- rejected_leaves_no_module: a config whose SECOND app fails to validate after the first app and
+-- its guests were provisioned — the three instances are provisioned and cleaned, the pool is back
+example : (changeTo ⟨0, [], [⟨0, 5, 0, [2], [⟨0, 1⟩, ⟨0, 2⟩]⟩, ⟨1, 6, 4, [], []⟩]⟩ exEnv exState).2 = .errValidate ∧
+    ((changeTo ⟨0, [], [⟨0, 5, 0, [2], [⟨0, 1⟩, ⟨0, 2⟩]⟩, ⟨1, 6, 4, [], []⟩]⟩ exEnv exState).1.events.filter
+      (fun ev => match ev with | .clean i => i.cid = 1 | _ => false)).length = 4 ∧
+    (changeTo ⟨0, [], [⟨0, 5, 0, [2], [⟨0, 1⟩, ⟨0, 2⟩]⟩, ⟨1, 6, 4, [], []⟩]⟩ exEnv exState).1.mpool 1 = 0 ∧
+    exState.mpool 0 = 1 := by decide
 -- "unchanged"
 example : (changeTo exOld ⟨false, false, 0, [], [], []⟩ exState).2 = .same := by decide
 -- a history with rejected attempts in the middle satisfies the hypothesis of history_atomic_partial
